@@ -288,6 +288,24 @@ class Stub:
             k.setdefault("stdout", sp.DEVNULL); k.setdefault("stderr", sp.DEVNULL)
             return sp.run(*a, **k)
 pyc.subprocess = Stub()
+REUSED = []
+def reuse_compile(job):
+    # what compile() does, but with ONE Parser object for every closure: clear(), parse(), then the six back ends
+    import pathlib
+    from pyrtma.parser import Parser
+    if not REUSED:
+        REUSED.append(Parser(**job["opts"]))
+    p = REUSED[0]
+    p.clear()
+    p.parse(pathlib.Path(job["root"]))
+    o, n = pathlib.Path(job["out"]), job["name"]
+    pc.PyDefCompiler(p).generate(o / (n + ".py"))
+    pc.JSDefCompiler(p).generate(o / (n + ".js"))
+    pc.MatlabDefCompiler(p).generate(o / (n + ".m"))
+    pc.CDefCompiler(p, filename=n).generate(o / (n + ".h"))
+    pc.YAMLCompiler(p, filename=n).generate(o / (n + "_combined.yaml"))
+    pc.InfoCompiler(p, filename=n).generate(o / (n + ".txt"))
+
 for line in sys.stdin:
     line = line.strip()
     if not line:
@@ -297,8 +315,11 @@ for line in sys.stdin:
     cwd = os.getcwd()
     try:
         with contextlib.redirect_stdout(io.StringIO()), contextlib.redirect_stderr(io.StringIO()):
-            pc.compile(defs_files=[job["root"]], out_dir=job["out"], out_name=job["name"], python=True, javascript=True,
-                       matlab=True, c_lang=True, info=True, combined=True, **job["opts"])
+            if job.get("reuse"):
+                reuse_compile(job)
+            else:
+                pc.compile(defs_files=[job["root"]], out_dir=job["out"], out_name=job["name"], python=True, javascript=True,
+                           matlab=True, c_lang=True, info=True, combined=True, **job["opts"])
         r = {"rc": 0, "error": None}
     except BaseException as e:
         r = {"rc": 1, "error": type(e).__name__ + ": " + str(e)[:300]}
@@ -338,10 +359,13 @@ class CompileWorker:
         self.w = None
         self.count = 0
 
-    def compile(self, root, out_dir, name, real_black=False, **opts):
+    def compile(self, root, out_dir, name, real_black=False, reuse_parser=False, **opts):
+        """reuse_parser=True: the worker keeps ONE Parser object (created with the options of the first job) and, for every
+        closure, calls clear(), parse() and the six back ends on it - the plumbing of compile() with a reused parser."""
         if self.w is None:
             self.w = _LineWorker([PY, "-u", "-W", "ignore", "-c", _COMPILE_WORKER, REPO_SRC], env=_env(self.hashseed), cwd=self.cwd)
-        r = self.w.ask({"root": root, "out": out_dir, "name": name, "black": bool(real_black), "opts": opts}, timeout=TOOL_TIMEOUT * 2)
+        r = self.w.ask({"root": root, "out": out_dir, "name": name, "black": bool(real_black), "opts": opts, "reuse": bool(reuse_parser)},
+                       timeout=TOOL_TIMEOUT * 2)
         self.count += 1
         return r["rc"], r["error"]
 
@@ -1162,7 +1186,8 @@ class MatlabSyntaxError(MatlabError):
 
 
 class MatlabUnsupported(MatlabError):
-    """Valid-looking MATLAB outside the subset this interpreter knows (harness limitation, not a finding)."""
+    """Valid-looking MATLAB outside the subset this interpreter knows (harness limitation, not a finding).  Constructs
+    that are NOT valid MATLAB raise MatlabSyntaxError / MatlabError / MatlabUndefined instead and are findings."""
 
 
 _M_NUM = re.compile(r"[-+]?(?:0[xX][0-9a-fA-F]+|(?:\d+\.?\d*(?:[eE][-+]?\d+)?|\.\d+(?:[eE][-+]?\d+)?)|[iI]nf|[nN]a[nN])")
@@ -1273,9 +1298,13 @@ class _MParser:
                 self.fail(f"{fn}(x) with non-numeric x", MatlabUnsupported)
             return {"$": "typed", "t": fn, "n": 1}
         if fn == "repmat":
-            if len(args) != 3 or args[1] != {"$": "num", "v": 1} or args[2]["$"] != "num" or not isinstance(args[2]["v"], int):
+            if len(args) != 3 or args[1]["$"] != "num" or args[1]["v"] != 1 or args[2]["$"] != "num":
                 self.fail("repmat(x, 1, N) expected", MatlabUnsupported)
             n = args[2]["v"]
+            # MATLAB has one number type: 2.0 is 2.  A size that is not a whole number is an error there ("Size inputs must be integers").
+            if n != n or n in (float("inf"), float("-inf")) or n != int(n):
+                self.fail(f"repmat size {n!r} is not an integer", MatlabError)
+            n = int(n)
             v = args[0]
             if v["$"] == "typed":
                 return {"$": "typed", "t": v["t"], "n": v["n"] * max(n, 0)}
@@ -1368,6 +1397,8 @@ def matlab_run(text, root="RTMA", ignore_undefined=()):
             for name, v in mt["f"].items():
                 if v["$"] != "num":
                     raise MatlabError(f"{m.group(1)}.MT.{name} is not numeric", i, s)
+                if v["v"] != int(v["v"]) or v["v"] + 1 < 1:
+                    raise MatlabError(f"{m.group(1)}.MT.{name} + 1 = {v['v'] + 1!r} is not a valid cell index", i, s)
                 if mdf["$"] != "struct" or name not in mdf["f"]:
                     raise MatlabUndefined(f"{m.group(1)}.MDF.{name}", i, f"mdf = {m.group(1)}.MDF.(mtn);  % mtn = '{name}'")
                 by_mtn[v["v"]] = name
